@@ -473,7 +473,9 @@ func (p *blockParser) render() {
 				// containers.
 				p.tree.closeBlocks(matchedContainers, lineNo, p.codec)
 			}
-			p.tree.paragraph = append(p.tree.paragraph, line)
+			// Initial spaces and tabs of each paragraph line are not part of
+			// the paragraph's content.
+			p.tree.paragraph = append(p.tree.paragraph, strings.TrimLeft(line, " \t"))
 		}
 	}
 	p.tree.closeBlocks(0, p.lines.lastLineNo+1, p.codec)
